@@ -115,6 +115,11 @@ package commonmark
 //@   callsite (*inlineState).addToRoot: requires[boundary] ($1.kind == CharacterReferenceKind || $1.kind == AutolinkKind || $1.kind == SoftLineBreakKind || $1.kind == HardLineBreakKind) ==> SpanOnBoundaries($1, state.source)
 //@   callsite (*inlineState).addToRoot: requires[nested] $1.kind == AutolinkKind ==> ($1.span.Start <= $1.children[0].span.Start && $1.children[0].span.Start <= $1.children[0].span.End && $1.children[0].span.End <= $1.span.End)
 //@   callsite (*InlineParser).parseBackslash: requires[utf8] UTF8OK(state.source)
+//@   -- no text lost or duplicated around a construct (C03): a node the tokeniser creates for a construct starts exactly
+//@   -- where the plain-text node added just before it ended (lastEnd: end of the previous addToRoot argument)
+//@   ghost lastEnd = 0
+//@   callsite (*inlineState).addToRoot: requires[adjacent] ($1.kind == CharacterReferenceKind || $1.kind == AutolinkKind || $1.kind == SoftLineBreakKind || $1.kind == HardLineBreakKind) ==> $1.span.Start == lastEnd
+//@   callsite (*inlineState).addToRoot: ghost lastEnd = $1.span.End
 //@   callsite (*InlineParser).parseBackslash: requires[at] source[pos] == '\\'
 //@   loop 0: invariant[state] !isnil(state) && !isnil(dummy) && state.root == dummy && state.parentMap != nil && aliases(state.source, source) && len(state.source) == len(source)
 //@   loop 0: invariant[utf8] UTF8OK(source)
@@ -127,4 +132,4 @@ package commonmark
 //@   nosafety nil the unparsed nodes of a block are never nil (assumption A-NODEINV, C05)
 //@   nosafety range positions are bounded by the length of Source (assumption A-C02-1)
 //@   unclaimed dec the scanner's progress (every iteration consumes input) is not under contract here
-//@   serves C13, C05, C02
+//@   serves C13, C05, C02, C03
